@@ -39,8 +39,7 @@ type Baseline struct {
 	Obligations map[string]string `json:"obligations"`
 }
 
-// selftestMode (GOVC_SELFTEST=1, set by tools/selftest.sh for runs on mutated scratch copies): no second
-// attempt on undecided obligations and no replay construction; the question is only whether a violation
+// selftestMode (GOVC_SELFTEST=1, set by tools/selftest.sh for runs on mutated scratch copies): no replay construction; the question is only whether a violation
 // is reported.
 var selftestMode = os.Getenv("GOVC_SELFTEST") == "1"
 
@@ -181,10 +180,7 @@ func cmdCheck(args []string) int {
 						if _, isKnown := known[o.Name]; isKnown {
 							continue
 						}
-						if selftestMode {
-							retried[o] = SolveResult{Status: "timeout"}
-							continue
-						}
+
 						o, u := o, r.unit
 						rwg.Add(1)
 						go func() {
